@@ -148,49 +148,60 @@ Proof.
 Qed.
 
 (* ------------------------------------------------------------------ getters only allocate *)
-Definition derived (n : nat) (v0 v : val) : Prop :=
-  forall r, vref v = Some r -> vref v0 = Some r \/ n <= r.
+Definition derived (n n' : nat) (v0 v : val) : Prop :=
+  forall r, vref v = Some r -> vref v0 = Some r \/ (n <= r /\ r < n').
 
 Lemma getitem_alloc v s w w' r :
   getitem v s w = (w', r) ->
   roots w' = roots w /\ vars w' = vars w /\ heap_ext (heap w) (heap w') /\
-  (forall a, r = Ok a -> derived (length (heap w)) v a).
+  (forall a, r = Ok a -> derived (length (heap w)) (length (heap w')) v a).
 Proof.
-  unfold getitem. destruct v as [|c cx np|r0 ix shp]; try (unfold fail; intros H; inversion H; subst; repeat split; auto using heap_ext_refl; intros a Ha; discriminate).
-  destruct (lookup_slc s shp) as [si|]; [|unfold fail; intros H; inversion H; subst; repeat split; auto using heap_ext_refl; intros a Ha; discriminate].
+  unfold getitem.
+  assert (Hf : forall e, fail e w = (w', r) ->
+    roots w' = roots w /\ vars w' = vars w /\ heap_ext (heap w) (heap w') /\
+    (forall a, r = Ok a -> derived (length (heap w)) (length (heap w')) v a)).
+  { unfold fail; intros e H; inversion H; subst. split; [reflexivity|split; [reflexivity|split; [apply heap_ext_refl|]]].
+    intros a Ha; discriminate. }
+  destruct v as [|c cx np|r0 ix shp]; try (apply Hf).
+  destruct (lookup_slc s shp) as [si|]; [|apply Hf].
   destruct (si_kind si).
-  - unfold ret. intros H; inversion H; subst. repeat split; auto using heap_ext_refl.
+  - unfold ret. intros H; inversion H; subst. split; [reflexivity|split; [reflexivity|split; [apply heap_ext_refl|]]].
     intros a Ha; inversion Ha; subst. intros r Hr; cbn in Hr. left. exact Hr.
   - unfold bind, mread, mcplx, new_array, bind, halloc, ret. cbn. intros H; inversion H; subst. cbn.
-    repeat split; auto. { eexists; reflexivity. }
-    intros a Ha; inversion Ha; subst. intros r Hr; cbn in Hr. inversion Hr; subst. right. lia.
+    split; [reflexivity|split; [reflexivity|split; [eexists; reflexivity|]]].
+    intros a Ha; inversion Ha; subst. intros r Hr; cbn in Hr. inversion Hr; subst. right.
+    rewrite app_length; cbn; lia.
   - unfold bind, mread, mcplx, ret. cbn. intros H; inversion H; subst.
-    repeat split; auto using heap_ext_refl. intros a Ha; inversion Ha; subst. intros r Hr; discriminate.
-  - unfold fail. intros H; inversion H; subst; repeat split; auto using heap_ext_refl; intros a Ha; discriminate.
+    split; [reflexivity|split; [reflexivity|split; [apply heap_ext_refl|]]].
+    intros a Ha; inversion Ha; subst. intros r Hr; discriminate.
+  - apply Hf.
 Qed.
 
 Lemma get_fld_alloc f i p : forall w w' r,
   get_fld f i p w = (w', r) ->
   roots w' = roots w /\ vars w' = vars w /\ heap_ext (heap w) (heap w') /\
-  (forall a, r = Ok a -> derived (length (heap w)) (f (root w i)) a).
+  (forall a, r = Ok a -> derived (length (heap w)) (length (heap w')) (f (root w i)) a).
 Proof.
   induction p as [|s p IH]; intros w w' r H.
   - cbn in H. unfold bind, get_root, ret in H. inversion H; subst.
-    repeat split; auto using heap_ext_refl. intros a Ha; inversion Ha; subst. intros r Hr. left. exact Hr.
+    split; [reflexivity|split; [reflexivity|split; [apply heap_ext_refl|]]].
+    intros a Ha; inversion Ha; subst. intros r Hr. left. exact Hr.
   - cbn in H. apply bind_inv in H as [(w1 & b & H1 & H2)|(e & H1 & ->)].
     + apply IH in H1 as (Hr1 & Hv1 & He1 & Hd1). specialize (Hd1 b eq_refl).
-      destruct b as [|c cx np|r0 ix shp].
-      * unfold ret in H2; inversion H2; subst. repeat split; auto. intros a Ha; inversion Ha; subst. intros r Hr; discriminate.
-      * apply getitem_alloc in H2 as (Hr2 & Hv2 & He2 & Hd2).
-        repeat split; try congruence. { eapply heap_ext_trans; eauto. }
-        intros a Ha. intros r0 Hr0. destruct (Hd2 a Ha r0 Hr0) as [Hx|Hx]; [discriminate|].
-        right. apply heap_ext_len in He1. lia.
-      * apply getitem_alloc in H2 as (Hr2 & Hv2 & He2 & Hd2).
-        repeat split; try congruence. { eapply heap_ext_trans; eauto. }
-        intros a Ha. intros r1 Hr1'. destruct (Hd2 a Ha r1 Hr1') as [Hx|Hx].
-        -- destruct (Hd1 r1 Hx) as [Hy|Hy]; [left; exact Hy|right; exact Hy].
-        -- right. apply heap_ext_len in He1. lia.
-    + apply IH in H1 as (Hr1 & Hv1 & He1 & Hd1). repeat split; auto; try (intros a Ha; discriminate).
+      assert (Hg : forall b', b' = b -> getitem b' s w1 = (w', r) ->
+        roots w' = roots w /\ vars w' = vars w /\ heap_ext (heap w) (heap w') /\
+        (forall a, r = Ok a -> derived (length (heap w)) (length (heap w')) (f (root w i)) a)).
+      { intros b' -> Hg. apply getitem_alloc in Hg as (Hr2 & Hv2 & He2 & Hd2).
+        split; [congruence|split; [congruence|split; [eapply heap_ext_trans; eauto|]]].
+        intros a Ha r1 Hr1'. apply heap_ext_len in He1. pose proof (heap_ext_len _ _ He2) as L2.
+        destruct (Hd2 a Ha r1 Hr1') as [Hx|Hx].
+        - destruct (Hd1 r1 Hx) as [Hy|Hy]; [left; exact Hy|right; lia].
+        - right. lia. }
+      destruct b as [|c cx np|r0 ix shp]; [|apply (Hg _ eq_refl H2)|apply (Hg _ eq_refl H2)].
+      unfold ret in H2; inversion H2; subst. split; [exact Hr1|split; [exact Hv1|split; [exact He1|]]].
+      intros a Ha; inversion Ha; subst. intros r Hr; discriminate.
+    + apply IH in H1 as (Hr1 & Hv1 & He1 & Hd1). split; [exact Hr1|split; [exact Hv1|split; [exact He1|]]].
+      intros a Ha; discriminate.
 Qed.
 
 (* ------------------------------------------------------------------ footprint logic for the sensitivity operations
@@ -484,3 +495,148 @@ Section Foot.
       destruct (is_none cur); [apply hoare_ret; intros; exact I|]. apply hoare_set_se. apply vokn_none.
   Qed.
 End Foot.
+
+(* ------------------------------------------------------------------ footprints in closed form *)
+Definition sens_is (w : world) (i r : nat) : Prop := vref (r_se (root w i)) = Some r.
+Definition state_is (w : world) (i r : nat) : Prop := vref (r_st (root w i)) = Some r.
+
+(* what an operation on the sensitivity of root i may change: nothing but root i's sensitivity field and the buffer it
+   referred to before the call (and freshly allocated buffers); afterwards root i's sensitivity refers to the same
+   buffer or to a fresh one *)
+Definition sens_footprint (i : nat) (w w' : world) : Prop :=
+  Rw (length (heap w)) (sens_is w i) i w w' /\
+  (forall r, sens_is w' i r -> (sens_is w i r \/ length (heap w) <= r) /\ r < length (heap w')).
+
+Lemma Iw_start w i : (forall r, sens_is w i r -> r < length (heap w)) ->
+  Iw (length (heap w)) (sens_is w i) i w.
+Proof. intros Hv. split; [lia|]. intros r Hr. split; [left; exact Hr|apply Hv; exact Hr]. Qed.
+
+Lemma footprint_of_hoare {A} i (m : M A) Q w w' r :
+  (forall r, sens_is w i r -> r < length (heap w)) ->
+  hoare (length (heap w)) (sens_is w i) i (length (heap w)) m Q -> m w = (w', r) -> sens_footprint i w w'.
+Proof.
+  intros Hv Hm H. destruct (Hm w (Iw_start w i Hv) (le_n _) _ _ H) as ([HI1 HI2] & HR & _).
+  split; [exact HR|]. intros r0 Hr0. apply HI2. exact Hr0.
+Qed.
+
+Theorem add_se_footprint i p ds w w' r :
+  (forall r, sens_is w i r -> r < length (heap w)) -> add_se i p ds w = (w', r) -> sens_footprint i w w'.
+Proof. intros Hv. eapply footprint_of_hoare; [exact Hv|apply hoare_add_se]. Qed.
+
+Theorem reset_footprint i p k w w' r :
+  (forall r, sens_is w i r -> r < length (heap w)) -> reset i p k w = (w', r) -> sens_footprint i w w'.
+Proof. intros Hv. eapply footprint_of_hoare; [exact Hv|apply hoare_reset]. Qed.
+
+(* through a slice the assigned value is only read, so no condition on it is needed *)
+Lemma hoare_set_se_slice n0 W i n s p x : hoare n0 W i n (set_se i (s :: p) x) T.
+Proof.
+  cbn [set_se]. eapply hoare_bind; [apply hoare_get_se|]. intros bs n1 Hn1 Hbs.
+  eapply hoare_bind with (Q := T).
+  - destruct (is_none bs); [|apply hoare_ret; intros; exact I].
+    destruct (is_none x); [apply hoare_ret; intros; exact I|].
+    eapply hoare_bind; [apply hoare_get_st|]; intros b n2 Hn2 _.
+    eapply hoare_bind; [apply hoare_mul0|]; intros z n3 Hn3 Hz.
+    eapply hoare_bind; [apply hoare_set_se; exact Hz|]; intros _ n4 Hn4 _. apply hoare_ret; intros; exact I.
+  - intros cont n2 Hn2 _. destruct cont; [|apply hoare_ret; intros; exact I].
+    eapply hoare_bind; [apply hoare_get_se|]. intros bs' n3 Hn3 Hbs'.
+    apply hoare_setitem; exact Hbs'.
+Qed.
+
+Theorem set_se_footprint i p x w w' r :
+  (forall r, sens_is w i r -> r < length (heap w)) ->
+  (forall r, vref x = Some r -> False) \/ p <> [] ->
+  set_se i p x w = (w', r) -> sens_footprint i w w'.
+Proof.
+  intros Hv Hx H.
+  destruct p as [|s p'].
+  - destruct Hx as [Hx|Hx]; [|congruence].
+    eapply footprint_of_hoare; [exact Hv| |exact H]. apply hoare_set_se. intros r0 Hr0. destruct (Hx r0 Hr0).
+  - eapply footprint_of_hoare; [exact Hv| |exact H]. apply hoare_set_se_slice.
+Qed.
+
+(* ---- assignments through a slice of the state write only the buffer of the root's state *)
+Record heap_frame (P : nat -> Prop) (h h' : list buf) : Prop := {
+  hf_len : length h <= length h';
+  hf_meta : forall r, r < length h ->
+     length (bdata (getbuf h' r)) = length (bdata (getbuf h r)) /\ bcplx (getbuf h' r) = bcplx (getbuf h r);
+  hf_frame : forall r, r < length h -> ~ P r -> getbuf h' r = getbuf h r
+}.
+
+Lemma heap_frame_refl P h : heap_frame P h h.
+Proof. constructor; auto. Qed.
+
+Lemma heap_frame_ext P h h' : heap_ext h h' -> heap_frame P h h'.
+Proof.
+  intros He. constructor.
+  - apply heap_ext_len; exact He.
+  - intros r Hr. rewrite (heap_ext_getbuf _ _ _ He Hr). auto.
+  - intros r Hr _. apply heap_ext_getbuf; assumption.
+Qed.
+
+Lemma heap_frame_write P h r ix vs : (P r \/ length h <= r) -> heap_frame P h (hwrite h r ix vs).
+Proof.
+  intros Hr. constructor.
+  - rewrite hwrite_length; lia.
+  - intros r' _. apply hwrite_meta.
+  - intros r' Hr' HP. apply getbuf_hwrite_other. intros ->. destruct Hr; [contradiction|lia].
+Qed.
+
+Lemma assign_frame (P : nat -> Prop) r tix isscal shp x w w' res :
+  assign r tix isscal shp x w = (w', res) ->
+  roots w' = roots w /\ vars w' = vars w /\ (P r -> heap_frame P (heap w) (heap w')) /\ length (heap w') = length (heap w).
+Proof.
+  unfold assign. intros H.
+  assert (Hw : forall d, mwrite r tix d w = (w', res) ->
+     roots w' = roots w /\ vars w' = vars w /\ (P r -> heap_frame P (heap w) (heap w')) /\ length (heap w') = length (heap w)).
+  { intros d Hd. unfold mwrite in Hd. inversion Hd; subst. cbn. split; [reflexivity|split; [reflexivity|split]].
+    - intros HP. apply heap_frame_write. left; exact HP.
+    - apply hwrite_length. }
+  assert (Hf : forall e, fail e w = (w', res) ->
+     roots w' = roots w /\ vars w' = vars w /\ (P r -> heap_frame P (heap w) (heap w')) /\ length (heap w') = length (heap w)).
+  { intros e He. unfold fail in He. inversion He; subst. split; [reflexivity|split; [reflexivity|split; [|reflexivity]]].
+    intros _. apply heap_frame_refl. }
+  destruct x as [|c cx np|r' ix' shp']; unfold bind, mcplx, mread in H.
+  - eapply Hf; exact H.
+  - destruct (cx && negb (bcplx (getbuf (heap w) r))); [eapply Hf|eapply Hw]; exact H.
+  - destruct shp'.
+    + destruct (bcplx (getbuf (heap w) r') && negb (bcplx (getbuf (heap w) r))); [eapply Hf|eapply Hw]; exact H.
+    + destruct isscal; [eapply Hf; exact H|].
+      destruct (negb (Zl_eqb (z :: shp') shp)); [eapply Hf; exact H|].
+      destruct (bcplx (getbuf (heap w) r') && negb (bcplx (getbuf (heap w) r))); [eapply Hf|eapply Hw]; exact H.
+Qed.
+
+Lemma setitem_frame (P : nat -> Prop) v s x w w' res :
+  setitem v s x w = (w', res) -> (forall r, vref v = Some r -> P r) ->
+  roots w' = roots w /\ vars w' = vars w /\ heap_frame P (heap w) (heap w') /\ length (heap w') = length (heap w).
+Proof.
+  unfold setitem. intros H Hv.
+  assert (Hf : forall e, fail e w = (w', res) ->
+     roots w' = roots w /\ vars w' = vars w /\ heap_frame P (heap w) (heap w') /\ length (heap w') = length (heap w)).
+  { intros e He. unfold fail in He. inversion He; subst. split; [reflexivity|split; [reflexivity|split; [|reflexivity]]].
+    apply heap_frame_refl. }
+  destruct v as [|c cx np|r ix shp]; try (eapply Hf; exact H).
+  destruct (lookup_slc s shp) as [si|]; [|eapply Hf; exact H].
+  assert (HP : P r) by (apply Hv; reflexivity).
+  destruct (si_kind si); try (eapply Hf; exact H);
+    (apply (assign_frame P) in H as (A1 & A2 & A3 & A4); split; [exact A1|split; [exact A2|split; [exact (A3 HP)|exact A4]]]).
+Qed.
+
+(* sig.state = x through a slice: roots and variables untouched; only the buffer of the root's state (or a fresh copy
+   made by an inner copying slice) is written *)
+Theorem set_st_slice_footprint i s p x w w' res :
+  (forall r, state_is w i r -> r < length (heap w)) ->
+  set_st i (s :: p) x w = (w', res) ->
+  roots w' = roots w /\ vars w' = vars w /\ heap_frame (state_is w i) (heap w) (heap w').
+Proof.
+  intros Hv H. cbn in H. apply bind_inv in H as [(w1 & b & H1 & H2)|(e & H1 & ->)].
+  - apply get_fld_alloc in H1 as (Hr1 & Hv1 & He1 & Hd1). specialize (Hd1 b eq_refl).
+    apply (setitem_frame (fun r => state_is w i r \/ length (heap w) <= r)) in H2 as (Hr2 & Hv2 & Hf2 & Hl2).
+    + split; [congruence|split; [congruence|]].
+      destruct Hf2 as [L M F]. pose proof (heap_ext_len _ _ He1) as Hlen. constructor.
+      * lia.
+      * intros r Hr. destruct (M r ltac:(lia)) as [M1 M2]. rewrite (heap_ext_getbuf _ _ _ He1 Hr) in M1, M2. auto.
+      * intros r Hr HP. rewrite F; [apply heap_ext_getbuf; assumption|lia|]. intros [HA|HB]; [contradiction|lia].
+    + intros r Hr. destruct (Hd1 r Hr) as [Hx|Hx]; [left; exact Hx|right; lia].
+  - apply get_fld_alloc in H1 as (Hr1 & Hv1 & He1 & _). split; [exact Hr1|split; [exact Hv1|]].
+    apply heap_frame_ext; exact He1.
+Qed.
